@@ -122,6 +122,13 @@ def fragment(dialect):
                 ops.append((mid, p.number))
     if not ops:
         raise TranslateError('no binary operator productions found')
+    # the operators the property speaks about are fixed: each of them that is a token of this dialect has to be a binary
+    # operator production of its own (an operator hidden behind a helper non-terminal has no precedence of its own)
+    have = {o[0][0] for o in ops if len(o[0]) == 1}
+    missing = [t for t in FRAG if t in g.Terminals and t not in have and t not in ('NOT_LIKE', 'NOT_IN')]
+    if missing:
+        raise TranslateError(f'`expr {missing[0]} expr` is not a production of the {dialect} grammar although {missing[0]} is one of its tokens '
+                             f'(all missing: {missing})')
     pneg = tb.find_prod(('MINUS', 'expr'))
     pnot = tb.find_prod(('NOT', 'expr'))
     pbtw = tb.find_prod(('expr', 'BETWEEN', 'expr', 'AND', 'expr'))
